@@ -27,8 +27,8 @@ import (
 
 	sdkmath "cosmossdk.io/math"
 	abci "github.com/cometbft/cometbft/abci/types"
-	tmproto "github.com/cometbft/cometbft/proto/tendermint/types"
 	cmted25519 "github.com/cometbft/cometbft/crypto/ed25519"
+	tmproto "github.com/cometbft/cometbft/proto/tendermint/types"
 	tmtypes "github.com/cometbft/cometbft/types"
 	"github.com/cosmos/cosmos-sdk/crypto/keys/secp256k1"
 	simtestutil "github.com/cosmos/cosmos-sdk/testutil/sims"
@@ -340,8 +340,7 @@ func bootGenesis(c *Config, ex *Exported, bals []Balance, sdkMint *minttypes.Gen
 		return fail(err)
 	}
 
-	// the configuration of the new instance: same parameters source for later `New` is irrelevant;
-	// only Keyed is read after boot. Keep the original configuration object.
+	// the configuration object is kept: after boot only Cfg.Keyed (registered keys) is read.
 	s := &Sim{App: a, Cfg: c, tmp: tmp, Actors: actors}
 	s.Denoms = append([]string{}, denoms...)
 	sort.Strings(s.Denoms)
